@@ -8,6 +8,7 @@ namespace AutoVerif.C07
 open AutoVerif.C06
 
 def handle (input impl : Json) : R Reply := do
+  if let some k := isRace input then return ← raceReply k input impl
   let e ← replay true input impl
   pure { agree := e.agree, specModel := e.specM, specImpl := e.specI, diff := e.diff, fail := e.fail,
          nontrivial := decide (e.nKnownItems ≥ 1),
